@@ -1,0 +1,40 @@
+//go:build verif
+
+package couchbase
+
+// Contracts checked by /verif (govc). Comment-only: no executable code.
+// Protocol between a wrapper, its gocbcore callback and asyncOp (C20).
+
+//@ func NewAsyncOp
+//@ props C20
+//@ ensures.buffered[C20] result != nil && typeis(result, "*asyncOp") && fresh(as(result, "*asyncOp")) && as(result, "*asyncOp").ctx == ctx && as(result, "*asyncOp").signal != nil && fresh(as(result, "*asyncOp").signal) && chcap(as(result, "*asyncOp").signal) == 1 && !chclosed(as(result, "*asyncOp").signal) && chsent(as(result, "*asyncOp").signal) == 0 && chrecvd(as(result, "*asyncOp").signal) == 0
+//@ modifies nothing
+
+//@ func (*asyncOp).Resolve
+//@ props C20
+//@ nonblocking
+//@ requires m != nil && m.signal != nil && chsent(m.signal) - chrecvd(m.signal) < chcap(m.signal) && !chclosed(m.signal)
+//@ ensures.signalled[C20] sends(m.signal) == 1
+//@ modifies chan(m.signal)
+
+//@ func (*asyncOp).Wait
+//@ props C20
+//@ requires m != nil && m.ctx != nil && m.signal != nil && !chclosed(m.signal) && (err == nil ==> op != nil)
+//@ ensures.early[C20] err != nil ==> result == err && calls(gocbcore.PendingOp.Cancel) == 0 && calls(select.case) == 0
+//@ ensures.waited[C20] err == nil ==> calls(select.case) == 1
+//@ ensures.timeout[C20] err == nil && arg(select.case, 0, index) == 0 ==> calls(gocbcore.PendingOp.Cancel) == 1 && arg(gocbcore.PendingOp.Cancel, 0, recv) == op && result != nil
+//@ ensures.completed[C20] err == nil && arg(select.case, 0, index) == 1 ==> calls(gocbcore.PendingOp.Cancel) == 0 && chrecvd(m.signal) == old(chrecvd(m.signal)) + 1
+//@ modifies chan(m.signal), chan(uninterp("ctx.done", m.ctx)), calls(gocbcore.PendingOp.Cancel), calls(select.case)
+
+//@ iface couchbase.AsyncOp.Resolve
+//@ params recv
+//@ requires typeis(recv, "*asyncOp") && as(recv, "*asyncOp").signal != nil && chsent(as(recv, "*asyncOp").signal) - chrecvd(as(recv, "*asyncOp").signal) < chcap(as(recv, "*asyncOp").signal) && !chclosed(as(recv, "*asyncOp").signal)
+//@ ensures sends(as(recv, "*asyncOp").signal) == 1
+//@ modifies chan(as(recv, "*asyncOp").signal)
+
+//@ iface couchbase.AsyncOp.Wait
+//@ params recv op err
+//@ requires typeis(recv, "*asyncOp") && as(recv, "*asyncOp").ctx != nil && as(recv, "*asyncOp").signal != nil && (err == nil ==> op != nil)
+//@ ensures err != nil ==> result == err && calls(gocbcore.PendingOp.Cancel) == 0
+//@ ensures err == nil && result == nil ==> calls(gocbcore.PendingOp.Cancel) == 0
+//@ modifies chan(as(recv, "*asyncOp").signal), chan(uninterp("ctx.done", as(recv, "*asyncOp").ctx)), calls(gocbcore.PendingOp.Cancel), calls(select.case)
